@@ -114,6 +114,9 @@ class HashedIterable(Generic[T]):
         """
         yield from self.values.values()
         for v in self.iterable:
+            if v.id_ in self.values:
+                # already yielded (an iterable that lists a value twice), later passes yield it once as well.
+                continue
             self.values[v.id_] = v
             yield v
 
